@@ -1856,6 +1856,11 @@ func (m *Monitors) afterGC(h *H, repo string) {
 	}
 	for d, was := range pre.present {
 		if was && !post.present[d] && grace && !pre.aged[repo+"|"+d] {
+			// a referrers response document is the registry's own: it goes with its subject under the configured policy; the
+			// grace period protects what clients uploaded or pushed (a twin a client pushed is in the shadow as a manifest)
+			if _, pushed := rs.mans[d]; !pushed && strings.HasPrefix(strings.SplitN(h.tk.tokDigest(d), ":", 2)[1], "R(") {
+				continue
+			}
 			m.flag(h, "C05.recent-removed", fmt.Sprintf("%s is younger than the grace period and was removed", h.tk.tokDigest(d)))
 		}
 	}
